@@ -761,6 +761,10 @@ func Run(c *hx.Ctx) {
 		runPxStream(c)
 		return
 	}
+	if len(c.Args) > 0 && c.Args[0] == "wide-only" { // development aid: only the wide-selector stream
+		runWideStream(c)
+		return
+	}
 	replayCorpus(c)
 	// fixed boundary configurations
 	for _, cfg := range boundaryConfigs() {
@@ -804,6 +808,8 @@ func Run(c *hx.Ctx) {
 		runCase(c, cfg, qs, len(cfg.selectors) > 0 && c.Rng.Chance(30))
 		c.Count("inner." + cfg.lbType)
 	}
+	// wide selectors (1..8 keys, several values of the last sorted key): c15wide.go
+	runWideStream(c)
 	// the request path: sequences of requests on one route through the real proxy core (c15px.go)
 	runPxStream(c)
 	if c.Thorough() {
